@@ -1,8 +1,50 @@
-import NaijaVerif.Driver.Util
-/-! Family `resolve` — stub (replaced by the unit that owns this family). -/
+import NaijaVerif.Model.Resolve
+import NaijaVerif.Spec.WF
+import NaijaVerif.Gen.Builtins
+import NaijaVerif.Driver.AstIO
+import NaijaVerif.Driver.FactsIO
+/-!
+Line protocol `resolve` (see `harness/src/resolve.rs`):
+```
+resolve <hex src> [exp=<tag>] ast=<unannotated AST>
+   -> diags=<…> ast=<annotated AST> fns=… scopes=… locals=… stmts=… directs=… calls=… end=ok
+wf <hex src> [exp=<tag>] ast=<…>
+   -> viol=<violations of the scoping rules computed by the declarative spec `Spec/WF.lean`>
+full <hex src> [exp=<tag>] ast=<…>
+   -> wf=<0|1> scope=<n> type=<n>      (the documented judgement `Spec.WF`, with counts of violations)
+```
+The source text is not used (the AST comes from the real parser).  `locals_len` is computed as the
+generated probe `Gen.Builtins.localsLenIsSpan` says the code computes it.
+-/
 namespace NaijaVerif.Driver.ResolveD
+open NaijaVerif NaijaVerif.Driver
+
+/-- The text after ` ast=`. -/
+def astOf (line : String) : Option String :=
+  match line.splitOn " ast=" with
+  | [_, a] => some a
+  | _ => none
+
+def answer (line : String) : String :=
+  match words line, astOf line with
+  | kind :: _, some a =>
+      match AstIO.readBlock a with
+      | none => "bad-ast"
+      | some root =>
+          if kind = "resolve" then
+            let r := Resolve.resolveWith Gen.Builtins.localsLenIsSpan root
+            s!"diags={diagsStr r.diags} ast={AstIO.blockStr {} r.root} {FactsIO.factsStr r.facts} end=ok"
+          else if kind = "wf" then
+            let v := Spec.scopeViolations root
+            s!"viol={diagsStr (v.map fun (r, s) => ({ sev := .error, kind := r.kind, span := s } : Diag))}"
+          else if kind = "full" then
+            let sv := Spec.scopeViolations root
+            let tv := Spec.typeViolations root
+            s!"wf={if sv.isEmpty && tv.isEmpty then 1 else 0} scope={sv.length} type={tv.length}"
+          else "bad-op"
+  | _, _ => "bad-op"
 
 def main : IO Unit := do
-  IO.eprintln "family resolve: not built yet"
+  loop (← IO.getStdin) (← IO.getStdout) () (fun _ line => ((), answer line))
 
 end NaijaVerif.Driver.ResolveD
